@@ -19,9 +19,11 @@ type srcGen struct {
 }
 
 func (g *srcGen) pick(xs ...string) string { return xs[g.r.Intn(len(xs))] }
-func (g *srcGen) chance(n int) bool          { return g.r.Intn(n) == 0 }
-func (g *srcGen) name() string               { return g.pick("a", "b", "c", "x", "y", "n", "s", "v", "ok", "err", "T", "S", "f", "g") }
-func (g *srcGen) fresh(p string) string      { g.n++; return fmt.Sprintf("%s%d", p, g.n) }
+func (g *srcGen) chance(n int) bool        { return g.r.Intn(n) == 0 }
+func (g *srcGen) name() string {
+	return g.pick("a", "b", "c", "x", "y", "n", "s", "v", "ok", "err", "T", "S", "f", "g")
+}
+func (g *srcGen) fresh(p string) string { g.n++; return fmt.Sprintf("%s%d", p, g.n) }
 
 func (g *srcGen) typ() string {
 	if g.depth > 4 {
@@ -491,8 +493,8 @@ func (g *srcGen) tnode() string {
 func (g *srcGen) templateFS() (map[string]string, string) {
 	g.tmpl = true
 	files := map[string]string{
-		"part.html": "<i>{{ 1 + 2 }}</i>{% if x %}y{% end %}",
-		"imp.html":  "{% macro A %}a{% end %}{% macro B(s string) %}{{ s }}{% end %}{% var V = 1 %}",
+		"part.html":   "<i>{{ 1 + 2 }}</i>{% if x %}y{% end %}",
+		"imp.html":    "{% macro A %}a{% end %}{% macro B(s string) %}{{ s }}{% end %}{% var V = 1 %}",
 		"layout.html": "<html>{{ Title() }}{% show Body() %}{{ render \"part.html\" }}</html>",
 	}
 	var b strings.Builder
